@@ -75,8 +75,8 @@ def run(ctx):
     nfac = len(hs)
     if nfac < 12000:
         raise Undecided("TLC enumerated only %d factor worlds" % nfac)
-    for s in range(1 if q else 8):
-        hs += walks(ctx, 150 if q else 1500, 4 if q else 6, 3 if q else 4, ctx.seed * 100 + s)
+    for s in range(1 if q else 4):
+        hs += walks(ctx, 150 if q else 500, 4 if q else 6, 3 if q else 4, ctx.seed * 100 + s)
     inp = ctx.path("g", "in.json")
     out = ctx.path("g", "trace.ndjson")
     json.dump(hs, open(inp, "w"))
